@@ -90,6 +90,7 @@ class Engine:
         self.mask_cache = {}
         self.inv_funcs = {}
         self.trusted_facts = set()
+        self.instance_results = []
         self.inlined = set()
         self.used_contracts = set()
         self.spec_mode = False       # evaluating contract clauses: no obligations, no path splitting on and/or
